@@ -299,9 +299,64 @@ fn main() {
     let mut report_items: Vec<serde_json::Value> = Vec::new();
     let mut rewrite_counts: BTreeMap<String, usize> = BTreeMap::new();
     let mut includes: Vec<String> = Vec::new();
+    // no-op trait methods (R7b): every impl of the method in protocol/src/traits.rs has an empty body
+    let mut noop: HashSet<String> = HashSet::new();
+    {
+        let p = format!("{repo}/protocol/src/traits.rs");
+        if let Ok(txt) = std::fs::read_to_string(&p) {
+            if let Ok(f) = parse_file(&txt) {
+                let mut nonempty: HashSet<String> = HashSet::new();
+                for it in &f.items {
+                    if let Item::Impl(im) = it {
+                        for ii in &im.items {
+                            if let ImplItem::Fn(func) = ii {
+                                if func.block.stmts.is_empty() {
+                                    noop.insert(func.sig.ident.to_string());
+                                } else {
+                                    nonempty.insert(func.sig.ident.to_string());
+                                }
+                            }
+                        }
+                    }
+                }
+                for n in nonempty {
+                    noop.remove(&n);
+                }
+            }
+        }
+    }
     let mut file_renames: HashMap<String, Vec<(String, String)>> = HashMap::new();
+    let mut exec_consts: Vec<String> = Vec::new();
+    let mut emitted_consts: HashSet<(String, String)> = HashSet::new();
 
-    let tl: Vec<&str> = template.lines().collect();
+    // `//@consts <file>`: every top-level const of the file that no explicit `//@const` names (so that a change which
+    // introduces a new constant is still extracted instead of leaving the run undecided)
+    let explicit: HashSet<String> = template
+        .lines()
+        .filter_map(|l| l.trim_start().strip_prefix("//@const "))
+        .map(|r| norm(r.split(" [").next().unwrap()))
+        .collect();
+    let mut tl_owned: Vec<String> = Vec::new();
+    for l in template.lines() {
+        if let Some(rest) = l.trim_start().strip_prefix("//@consts ") {
+            let file = rest.trim().to_string();
+            let f = files.entry(file.clone()).or_insert_with(|| load(&repo, &file));
+            for it in &f.items {
+                if let Item::Const(c) = it {
+                    if cfg_is_false(&c.attrs) {
+                        continue;
+                    }
+                    let key = norm(&format!("{} :: {}", file, c.ident));
+                    if !explicit.contains(&key) {
+                        tl_owned.push(format!("//@const {} :: {}", file, c.ident));
+                    }
+                }
+            }
+        } else {
+            tl_owned.push(l.to_string());
+        }
+    }
+    let tl: Vec<&str> = tl_owned.iter().map(|s| s.as_str()).collect();
     let mut i = 0;
     while i < tl.len() {
         let line = tl[i];
@@ -417,7 +472,26 @@ fn main() {
                 die(&format!("{} :: {}: {}", parts[0], name, rw.unsupported.join("; ")));
             }
             let mut txt = rustfmt(&it.to_token_stream().to_string());
-            if let (Some(ens), Item::Const(c)) = (opts.get("exec"), &it) {
+            let mut auto_ens: Option<String> = None;
+            if let Item::Const(c) = &it {
+                if !opts.contains_key("exec") {
+                    // a const whose initialiser calls a function (size_of) cannot be a dual-mode Verus const: R24 with the
+                    // value computed by the tool's const evaluator and then PROVED by Verus from the real initialiser
+                    let orig_c = f.items.iter().find_map(|x| if let Item::Const(oc) = x { if oc.ident == name.as_str() { Some(oc) } else { None } } else { None });
+                    if let Some(oc) = orig_c {
+                        let needs_exec = oc.expr.to_token_stream().to_string().contains("size_of") || exec_consts.iter().any(|n| oc.expr.to_token_stream().to_string().split(|ch: char| !ch.is_alphanumeric() && ch != '_').any(|t| t == n));
+                        if needs_exec {
+                            if let Some(v) = const_eval(&oc.expr, f, 0) {
+                                auto_ens = Some(format!("{} == {}", c.ident, v));
+                            }
+                        }
+                    }
+                }
+            }
+            let exec_clause = opts.get("exec").cloned().or(auto_ens);
+            if let (Some(ens), Item::Const(c)) = (exec_clause.as_ref(), &it) {
+                exec_consts.push(c.ident.to_string());
+                exec_consts.push(name.clone());
                 // R24: `const N: T = E;` -> `exec const N: T ensures <clause> { E }` (the clause is proved from E)
                 txt = format!("{} exec const {}: {}\n    ensures {}\n{{ {} }}", c.vis.to_token_stream(), c.ident, c.ty.to_token_stream(), ens, rustfmt(&format!("fn __w() {{ {} }}", c.expr.to_token_stream())).lines().skip(1).next().unwrap_or("").trim());
                 *rewrite_counts.entry("R24".into()).or_default() += 1;
@@ -524,7 +598,7 @@ fn main() {
                     let q1 = r2.find('"').unwrap_or_else(|| die("bad //@hint needle"));
                     let q2 = r2.rfind('"').unwrap();
                     let needle = r2[q1 + 1..q2].to_string();
-                    let nth = r2[q2 + 1..].trim().strip_prefix('#').map(|s| s.parse().unwrap()).unwrap_or(1);
+                    let nth = r2[q2 + 1..].trim().strip_prefix('#').map(|s| s.parse().unwrap()).unwrap_or(0);
                     d.hints.push(Hint { arm, after, needle, nth, lines: vec![] });
                     mode = Mode::Hint;
                 } else if lt.starts_with("//@") {
@@ -543,7 +617,7 @@ fn main() {
             if let Some(fr) = file_renames.get(&d.file) {
                 fmaps.extend(fr.iter().cloned());
             }
-            emit_fn(f, &d, &fmaps, &method_maps, &mut out, &mut report_fns, &mut rewrite_counts);
+            emit_fn(&noop, f, &d, &fmaps, &method_maps, &mut out, &mut report_fns, &mut rewrite_counts);
         } else if t.starts_with("//@") {
             die(&format!("unknown directive: {t}"));
         } else {
@@ -562,11 +636,69 @@ fn main() {
     std::fs::write(&args[4], serde_json::to_string_pretty(&rep).unwrap()).unwrap();
 }
 
+/// const-evaluate simple integer initialisers (literals, + - * / << , other consts of the file, size_of of primitives)
+fn const_eval(e: &Expr, f: &SrcFile, depth: usize) -> Option<i128> {
+    if depth > 8 {
+        return None;
+    }
+    match e {
+        Expr::Lit(l) => match &l.lit {
+            Lit::Int(i) => i.base10_parse::<i128>().ok(),
+            _ => None,
+        },
+        Expr::Paren(p) => const_eval(&p.expr, f, depth + 1),
+        Expr::Group(p) => const_eval(&p.expr, f, depth + 1),
+        Expr::Cast(c) => const_eval(&c.expr, f, depth + 1),
+        Expr::Binary(b) => {
+            let (l, r) = (const_eval(&b.left, f, depth + 1)?, const_eval(&b.right, f, depth + 1)?);
+            match b.op {
+                BinOp::Add(_) => l.checked_add(r),
+                BinOp::Sub(_) => l.checked_sub(r),
+                BinOp::Mul(_) => l.checked_mul(r),
+                BinOp::Div(_) if r != 0 => Some(l / r),
+                BinOp::Shl(_) if (0..100).contains(&r) => l.checked_shl(r as u32),
+                _ => None,
+            }
+        }
+        Expr::Path(p) => {
+            let id = p.path.get_ident()?.to_string();
+            for it in &f.items {
+                if let Item::Const(c) = it {
+                    if c.ident == id {
+                        return const_eval(&c.expr, f, depth + 1);
+                    }
+                }
+            }
+            None
+        }
+        Expr::Call(c) => {
+            let s = norm(&c.func.to_token_stream().to_string());
+            let s = s.trim_start_matches("std::mem::").trim_start_matches("core::mem::").trim_start_matches("mem::");
+            let ty = s.strip_prefix("size_of::<")?.strip_suffix('>')?;
+            match ty {
+                "u8" | "i8" | "bool" => Some(1),
+                "u16" | "i16" => Some(2),
+                "u32" | "i32" | "f32" | "char" => Some(4),
+                "u64" | "i64" | "f64" | "usize" | "isize" => Some(8),
+                "u128" | "i128" => Some(16),
+                _ => None,
+            }
+        }
+        _ => None,
+    }
+}
+
+fn expr_has_call(e: &Expr) -> bool {
+    let s = e.to_token_stream().to_string();
+    s.contains('(') && !matches!(e, Expr::Paren(_) | Expr::Binary(_)) || s.contains("size_of")
+}
+
 fn has_derive(attrs: &[Attribute], name: &str) -> bool {
     attrs.iter().any(|a| a.path().is_ident("derive") && a.meta.to_token_stream().to_string().contains(name))
 }
 
 fn emit_fn(
+    noop: &HashSet<String>,
     f: &SrcFile,
     d: &FnDirective,
     maps: &[(String, String)],
@@ -609,6 +741,7 @@ fn emit_fn(
     let orig = src_text(f, lines);
 
     let mut rw = Rw::new(maps, method_maps);
+    rw.noop_methods = noop.clone();
     let mut impl_header = String::new();
     let mut moved_generics: Vec<GenericParam> = Vec::new();
     let mut all_preds: Vec<WherePredicate> = Vec::new();
@@ -818,9 +951,11 @@ fn emit_fn(
         k += 1;
     }
     // hints
+    let mut skipped_hints: Vec<String> = Vec::new();
     for h in &d.hints {
-        let mut cnt = 0;
-        let mut at: Option<usize> = None;
+        // all matching sites (or only the nth when `#n` is given); hints are proof help, so a hint whose anchor does not
+        // occur is skipped (recorded), never a reason to stop
+        let mut sites: Vec<usize> = Vec::new();
         for (k, l) in body.iter().enumerate() {
             if l.contains("/*vxhint*/") {
                 continue;
@@ -830,62 +965,97 @@ fn emit_fn(
                 None => norm(l).contains(&norm(&h.needle)),
             };
             if hit {
-                cnt += 1;
-                if cnt == h.nth {
-                    at = Some(k);
-                    break;
-                }
+                sites.push(k);
             }
         }
-        let at = at.unwrap_or_else(|| die(&format!("LOST ANCHOR: hint anchor \"{}\" #{} not found in {}::{}", h.needle, h.nth, d.selector, d.name)));
-        if h.arm {
-            // `PAT => EXPR,` on one line becomes `PAT => { <hint> EXPR }` (a match arm's value in a block: no semantic change)
+        if h.nth > 0 {
+            sites = sites.into_iter().skip(h.nth - 1).take(1).collect();
+        }
+        if sites.is_empty() {
+            skipped_hints.push(format!("{} \"{}\"", if h.arm { "arm" } else if h.after { "after" } else { "before" }, h.needle));
+            continue;
+        }
+        for &at in sites.iter().rev() {
             let l = body[at].clone();
-            let p = l.find(" => ").unwrap_or_else(|| die("hint arm: not a match arm"));
-            let rest = l[p + 4..].trim_end();
-            if rest.ends_with('{') {
-                // block arm: insert right after the opening brace
-                for (j, hl) in h.lines.iter().enumerate() {
-                    body.insert(at + 1 + j, format!("{hl} /*vxhint*/"));
+            let arm_pos = l.find(" => ");
+            let is_value_arm = arm_pos.is_some() && l.trim_end().ends_with(',') && !l.trim_end().ends_with("{,");
+            if h.arm {
+                // `PAT => EXPR,` on one line becomes `PAT => { <hint> EXPR }` (a match arm's value in a block: no semantic change)
+                let p = arm_pos.unwrap_or_else(|| die("hint arm: not a match arm"));
+                let rest = l[p + 4..].trim_end();
+                if rest.ends_with('{') {
+                    for (j, hl) in h.lines.iter().enumerate() {
+                        body.insert(at + 1 + j, format!("{hl} /*vxhint*/"));
+                    }
+                } else {
+                    let expr = rest.trim_end_matches(',');
+                    body[at] = format!("{} => {{ /*vxhint*/", &l[..p]);
+                    let mut ins: Vec<String> = h.lines.iter().map(|x| format!("{x} /*vxhint*/")).collect();
+                    ins.push(format!("{expr} /*vxarm*/"));
+                    ins.push("} /*vxhint*/".to_string());
+                    for (j, hl) in ins.into_iter().enumerate() {
+                        body.insert(at + 1 + j, hl);
+                    }
                 }
-            } else {
-                let expr = rest.trim_end_matches(',');
+                continue;
+            }
+            if is_value_arm && norm(&l[arm_pos.unwrap() + 4..]).contains(&norm(h.needle.trim_start_matches('='))) {
+                // the anchored statement is the value of a one-line match arm: open a block around it
+                let p = arm_pos.unwrap();
+                let expr = l[p + 4..].trim_end().trim_end_matches(',').to_string();
                 body[at] = format!("{} => {{ /*vxhint*/", &l[..p]);
-                let mut ins: Vec<String> = h.lines.iter().map(|x| format!("{x} /*vxhint*/")).collect();
-                ins.push(format!("{expr} /*vxarm*/"));
+                let mut ins: Vec<String> = Vec::new();
+                if h.after {
+                    ins.push(format!("let __vx_v = {expr}; /*vxarm*/"));
+                    ins.extend(h.lines.iter().map(|x| format!("{x} /*vxhint*/")));
+                    ins.push("__vx_v /*vxarm*/".to_string());
+                } else {
+                    ins.extend(h.lines.iter().map(|x| format!("{x} /*vxhint*/")));
+                    ins.push(format!("{expr} /*vxarm*/"));
+                }
                 ins.push("} /*vxhint*/".to_string());
                 for (j, hl) in ins.into_iter().enumerate() {
                     body.insert(at + 1 + j, hl);
                 }
+                continue;
             }
-            continue;
-        }
-        let pos = if h.after {
-            // end of the statement starting at `at`
-            let mut depth: i64 = 0;
-            let mut e = at;
-            loop {
-                for c in body[e].chars() {
-                    match c {
-                        '(' | '[' | '{' => depth += 1,
-                        ')' | ']' | '}' => depth -= 1,
-                        _ => {}
+            if h.after && l.trim_end().ends_with("/*vxarm*/") && !l.replace("/*vxarm*/", "").trim_end().ends_with(';') {
+                // tail expression of an arm block opened by an earlier hint
+                let expr = l.replace("/*vxarm*/", "").trim().to_string();
+                body[at] = format!("let __vx_v = {expr}; /*vxarm*/");
+                let mut ins: Vec<String> = h.lines.iter().map(|x| format!("{x} /*vxhint*/")).collect();
+                ins.push("__vx_v /*vxarm*/".to_string());
+                for (j, hl) in ins.into_iter().enumerate() {
+                    body.insert(at + 1 + j, hl);
+                }
+                continue;
+            }
+            let pos = if h.after {
+                let mut depth: i64 = 0;
+                let mut e = at;
+                loop {
+                    for c in body[e].chars() {
+                        match c {
+                            '(' | '[' | '{' => depth += 1,
+                            ')' | ']' | '}' => depth -= 1,
+                            _ => {}
+                        }
+                    }
+                    if depth <= 0 {
+                        break;
+                    }
+                    e += 1;
+                    if e >= body.len() {
+                        die("hint after: unbalanced");
                     }
                 }
-                if depth <= 0 {
-                    break;
-                }
-                e += 1;
-                if e >= body.len() {
-                    die("hint after: unbalanced");
-                }
+                e + 1
+            } else {
+                at
+            };
+            for (j, l) in h.lines.iter().enumerate() {
+                body.insert(pos + j, format!("{l} /*vxhint*/"));
             }
-            e + 1
-        } else {
-            at
-        };
-        for (j, l) in h.lines.iter().enumerate() {
-            body.insert(pos + j, format!("{l} /*vxhint*/"));
         }
     }
 
@@ -962,7 +1132,7 @@ fn emit_fn(
         "file": d.file, "selector": d.selector, "name": d.name, "emitted_name": name.to_string(),
         "src_lines": [lines.0, lines.1], "src_text": orig,
         "gen_lines": [s, e], "body_start": bs, "canary_lines": [cs, ce],
-        "props": d.props, "rewrites": rw.log, "loops": nloops, "trusted": d.trusted, "nocanary": d.nocanary,
+        "props": d.props, "skipped_hints": skipped_hints, "rewrites": rw.log, "loops": nloops, "trusted": d.trusted, "nocanary": d.nocanary,
     }));
 }
 
